@@ -235,7 +235,28 @@ func (i *interpreter) rangeMap(fr *frame, m *omap) iter {
 		return it
 	}
 	if m.assoc {
-		unmodelled("range over a map with symbolic keys")
+		// decide (forking where the keys allow both) which entries are live:
+		// an entry is shadowed by any later entry with an equal key
+		var live []int
+		for p := len(m.entries) - 1; p >= 0; p-- {
+			shadowed := false
+			for q := p + 1; q < len(m.entries); q++ {
+				if equals(i, m.keyType, m.entries[p].key, m.entries[q].key) {
+					shadowed = true
+					break
+				}
+			}
+			if !shadowed && !m.entries[p].deleted {
+				live = append([]int{p}, live...)
+			}
+		}
+		it.next0 = len(m.entries)
+		it.order = live
+		it.fixed = true
+		if i.ex != nil && i.ex.symMapOrder && len(live) > 1 && fr != nil && i.mapOrderApplies(fr) {
+			it.order = i.ex.chooseOrder(live)
+		}
+		return it
 	}
 	// entries may have been reset by delete-all: positions refer to current slice
 	var live []int
